@@ -312,7 +312,9 @@ func (f *frame) contractCall(callee *ssa.Function, spec *FuncSpec, args []Val, i
 		t := vc.evalSpec(env, c.Expr)
 		vc.obligeIn(f, "call-requires", fmt.Sprintf("%s.%d", name, c.Idx), in, t.T, site.Pos(), "precondition of "+name+": "+c.Text)
 	}
-	f.checkCallbackContracts(callee, site, in)
+	if !spec.Trusted {
+		f.checkCallbackContracts(callee, site, in)
+	}
 	// frame
 	if spec.HasAssign {
 		pats := vc.assignPats(env, spec.Assigns)
@@ -901,6 +903,10 @@ func (f *frame) checkCallbackContracts(callee *ssa.Function, site ssa.Instructio
 		av := args[i]
 		if ct, isCT := av.(*ssa.ChangeType); isCT {
 			av = ct.X
+		}
+		if mc, isMC := av.(*ssa.MakeClosure); isMC {
+			// a closure: its own contract ("Outer$N") must provide the parameter contract
+			av = mc.Fn
 		}
 		fn, isFn := av.(*ssa.Function)
 		if !isFn {
